@@ -93,7 +93,7 @@ pub fn run(ctx: &mut Ctx) {
     }
     // 1. policies: all 64 masks x boundary-biased values
     for mask in 0u32..64 {
-        for _ in 0..ctx.n(6, 60) { let p = policies(&mut ctx.rng, mask); rt_policies(ctx, &p); }
+        for _ in 0..ctx.n(12, 120) { let p = policies(&mut ctx.rng, mask); rt_policies(ctx, &p); }
     }
     // 2. inputs: every variant x every length class of predicate / predicate data / data (well-formed)
     for kind in 0..7usize {
@@ -104,14 +104,14 @@ pub fn run(ctx: &mut Ctx) {
                 let nz = nonzero_len(&mut ctx.rng); let i = input_of(&mut ctx.rng, kind, nz, l, x); rt_input(ctx, &i);
             }
         }
-        for _ in 0..ctx.n(40, 2000) { let i = { let (p, d, x) = (nonzero_len(&mut ctx.rng), len(&mut ctx.rng), nonzero_len(&mut ctx.rng)); input_of(&mut ctx.rng, kind, p, d, x) }; rt_input(ctx, &i); }
+        for _ in 0..ctx.n(150, 4000) { let i = { let (p, d, x) = (nonzero_len(&mut ctx.rng), len(&mut ctx.rng), nonzero_len(&mut ctx.rng)); input_of(&mut ctx.rng, kind, p, d, x) }; rt_input(ctx, &i); }
     }
     // 3. outputs, witnesses, storage slots, utxo ids, tx pointers, upgrade purposes
     for kind in 0..5usize {
-        for _ in 0..ctx.n(40, 2000) { let o = output_of(&mut ctx.rng, kind); let t = trailing(ctx); ctx.count(&format!("gen.output.{kind}")); ctx.distinct(o.vt().as_bytes()); roundtrip(ctx, "output", &o, &format!("output-{kind}"), &t); }
+        for _ in 0..ctx.n(120, 3000) { let o = output_of(&mut ctx.rng, kind); let t = trailing(ctx); ctx.count(&format!("gen.output.{kind}")); ctx.distinct(o.vt().as_bytes()); roundtrip(ctx, "output", &o, &format!("output-{kind}"), &t); }
     }
     for l in 0..80usize { let w: Witness = ctx.rng.bytes(l).into(); let t = trailing(ctx); ctx.count(&format!("gen.witness.len-mod8-{}", l % 8)); ctx.distinct(w.vt().as_bytes()); roundtrip(ctx, "witness", &w, "witness", &t); }
-    for _ in 0..ctx.n(60, 2000) {
+    for _ in 0..ctx.n(150, 3000) {
         let t = trailing(ctx);
         let w = witness(&mut ctx.rng); ctx.count(&format!("gen.witness.len-mod8-{}", w.as_ref().len() % 8)); roundtrip(ctx, "witness", &w, "witness", &t);
         let s = StorageSlot::new(b32(&mut ctx.rng).into(), b32(&mut ctx.rng).into()); ctx.count("gen.storageslot"); roundtrip(ctx, "storageslot", &s, "storageslot", &t);
@@ -122,7 +122,7 @@ pub fn run(ctx: &mut Ctx) {
     }
     // 4. receipts: every variant, payload present / absent (the exempt fields)
     for kind in 0..13usize {
-        for _ in 0..ctx.n(40, 2000) {
+        for _ in 0..ctx.n(100, 3000) {
             let r: Receipt = receipt_of(&mut ctx.rng, kind); let t = trailing(ctx);
             ctx.count(&format!("gen.receipt.{kind}")); ctx.distinct(r.vt().as_bytes());
             roundtrip(ctx, "receipt", &r, &format!("receipt-{kind}"), &t);
@@ -137,9 +137,9 @@ pub fn run(ctx: &mut Ctx) {
     // 5. transactions: every kind x every policy mask, then random compositions
     for kind in 0..6usize {
         for mask in 0u32..64 {
-            for _ in 0..ctx.n(1, 8) { let tx = tx_of(&mut ctx.rng, kind, mask); rt_tx(ctx, &tx); }
+            for _ in 0..ctx.n(2, 10) { let tx = tx_of(&mut ctx.rng, kind, mask); rt_tx(ctx, &tx); }
         }
-        for _ in 0..ctx.n(60, 6000) { let mask = ctx.rng.below(64) as u32; let tx = tx_of(&mut ctx.rng, kind, mask); rt_tx(ctx, &tx); }
+        for _ in 0..ctx.n(150, 8000) { let mask = ctx.rng.below(64) as u32; let tx = tx_of(&mut ctx.rng, kind, mask); rt_tx(ctx, &tx); }
     }
     // 6. ill-formed values (separate, so that they do not drown the valid ones): what the public setters /
     //    constructors accept but the decoder maps elsewhere (F1-F3)
